@@ -94,7 +94,72 @@ func (tr *FnTrans) callWith(c *ssa.CallCommon, site ssa.Instruction, pos token.P
 	if sig.Recv() != nil && args[0].K == KRef && tr.w.inRepo(callee) {
 		tr.oblig("nil", "", sNot(sEq(args[0].T, "0")), "method call on nil receiver at "+tr.posStr(pos))
 	}
-	return tr.applyContract(fc, name, sig, args, sig.Recv() != nil, cpkg, pos)
+	// monitor invariants of the mutex's owner
+	mon, owner := tr.monitorOf(c, callee)
+	if len(mon) > 0 && (callee.Name() == "Unlock" || callee.Name() == "RUnlock") && !tr.scan {
+		ec := tr.specCtx(tr.cur, tr.entryHeap, map[string]Val{"self": owner})
+		ec.pkg = tr.pkgOfType(owner.Typ)
+		for _, m := range mon {
+			tr.oblig("monitor", m.Mutex+"."+m.Label, ec.evalBool(m.E), "monitor invariant holds when "+m.Mutex+" is released at "+tr.posStr(pos)+": "+m.Text)
+		}
+	}
+	res := tr.applyContract(fc, name, sig, args, sig.Recv() != nil, cpkg, pos)
+	if len(mon) > 0 && (callee.Name() == "Lock" || callee.Name() == "RLock") && !tr.scan {
+		ec := tr.specCtx(tr.cur, tr.entryHeap, map[string]Val{"self": owner})
+		ec.pkg = tr.pkgOfType(owner.Typ)
+		for _, m := range mon {
+			tr.fact(ec.evalBool(m.E))
+		}
+		vc.assume("monitor rule: the invariant of a mutex-guarded object holds whenever its mutex is free (asserted at every release by the functions under contract)")
+	}
+	return res
+}
+
+// monitorOf: for a call of a sync mutex method on a field x.mu, the declared
+// monitor invariants of that field and the owner object x.
+func (tr *FnTrans) monitorOf(c *ssa.CallCommon, callee *ssa.Function) ([]MonitorInv, Val) {
+	if callee == nil || callee.Pkg == nil || callee.Pkg.Pkg.Path() != "sync" || len(c.Args) == 0 {
+		return nil, Val{}
+	}
+	fa, ok := c.Args[0].(*ssa.FieldAddr)
+	if !ok {
+		return nil, Val{}
+	}
+	subj := fieldSubject(fa.X.Type(), fa.Field)
+	if subj == "" {
+		return nil, Val{}
+	}
+	pkg := tr.pkgOfType(fa.X.Type())
+	if pkg == nil {
+		return nil, Val{}
+	}
+	cf := tr.w.cfiles[pkg.Path()]
+	if cf == nil {
+		return nil, Val{}
+	}
+	var out []MonitorInv
+	for _, m := range cf.Monitors {
+		if m.Mutex == subj {
+			out = append(out, m)
+		}
+	}
+	if len(out) == 0 {
+		return nil, Val{}
+	}
+	return out, tr.val(fa.X)
+}
+
+func (tr *FnTrans) pkgOfType(t types.Type) *types.Package {
+	if t == nil {
+		return tr.pkg
+	}
+	if p, ok := t.Underlying().(*types.Pointer); ok {
+		t = p.Elem()
+	}
+	if n, ok := t.(*types.Named); ok && n.Obj().Pkg() != nil {
+		return n.Obj().Pkg()
+	}
+	return tr.pkg
 }
 
 // unknownCall: no contract. In-repo callees havoc the whole heap; the result
@@ -438,6 +503,18 @@ func (tr *FnTrans) selectOp(x *ssa.Select) {
 	}
 	tr.fact(sAnd(sLe(lo, idx), sLt(idx, sNum(int64(len(x.States))))))
 	fields := []Val{{K: KInt, T: idx, Typ: types.Typ[types.Int]}, {K: KBool, T: vc.fresh("selrecvok", sortBool), Typ: types.Typ[types.Bool]}}
+	if !x.Blocking {
+		// a non-blocking select attempts each of its receives: "try" event
+		for _, st := range x.States {
+			if st.Dir == types.RecvOnly {
+				if cl := chanClass(st.Chan); cl != "" && tr.pkg != nil {
+					if _, ok := tr.w.contracts[tr.pkg.Path()+"\x00chan.try:"+cl]; ok {
+						tr.chanEvent("try", tr.val(st.Chan), nil, x.Pos(), cl)
+					}
+				}
+			}
+		}
+	}
 	for i, st := range x.States {
 		ch := tr.val(st.Chan)
 		if st.Dir == types.RecvOnly {
